@@ -1,0 +1,4 @@
+#ifndef PPL_CREDITS_hh
+#define PPL_CREDITS_hh 1
+extern const char* const CREDITS_array[446];
+#endif // !defined(PPL_CREDITS_hh)
